@@ -465,11 +465,17 @@ where instr(%v, ?) = 1
 	return outhdrs[:limit-1], nil
 }
 
-func (p *MetadataPersister) DeleteHeader(ctx context.Context, name string, lastknownrecord, lastknownblock int64) (*config.Header, error) {
+func (p *MetadataPersister) DeleteHeader(ctx context.Context, name string, linkname string, lastknownrecord, lastknownblock int64) (*config.Header, error) {
 	name = p.getSanitizedPath(ctx, name)
+
+	// A link is stored under the name of its target, so only the link path tells it apart from the target itself
+	if linkname != "" {
+		linkname = p.getSanitizedPath(ctx, linkname)
+	}
 
 	hdr, err := models.Headers(
 		qm.Where(models.HeaderColumns.Name+" = ?", name),
+		qm.Where(models.HeaderColumns.Linkname+" = ?", linkname),
 		qm.Where(models.HeaderColumns.Deleted+" != 1"),
 	).One(ctx, p.sqlite.DB)
 	if err != nil {
